@@ -106,6 +106,10 @@ def conditional_part(ck, tier):
     for case in range(ncase):
         n = int(rng.integers(1, 4))
         scale = 10.0 ** rng.uniform(-3, 3, size=n)
+        if case % 7 == 3:
+            scale = 10.0 ** rng.uniform(-18, -16, size=n)      # parameters of very small absolute magnitude (whole problem below 1e-8) ...
+        elif case % 7 == 5:
+            scale = scale * 1e7            # ... and very large (1e4 .. 1e10): "any scales"
         mu = rng.normal(size=n) * scale * 3
         A = rng.normal(size=(n, n)) * (0.5 if case % 2 else 0.0) + np.eye(n)
         cov = (A @ A.T) * np.outer(scale, scale)
